@@ -35,6 +35,14 @@ Theorem C34_native_empty : forall L literal_eval str_of is_async e,
 Proof. exact native_empty. Qed.
 Print Assumptions C34_native_empty.
 
+(* the statement read literally ("the text otherwise") would give the empty text for a template without
+   output; the code returns None on every entry point — witness for the known finding C34-empty-output-none;
+   C34_native_joined above is the statement under the guard ps <> [] *)
+Theorem C34_empty_text_refuted : forall L literal_eval str_of is_async e,
+  valid_entry is_async e = true -> native_render L literal_eval str_of is_async e [] <> RVal (NText []).
+Proof. intros L le so a e H. rewrite (native_empty L le so a e H). discriminate. Qed.
+Print Assumptions C34_empty_text_refuted.
+
 (* render_async outside an async-enabled environment is the documented RuntimeError *)
 Theorem C34_render_async_needs_async : forall L literal_eval str_of ps,
   native_render L literal_eval str_of false RenderAsync ps = RRuntimeError.
